@@ -1601,6 +1601,7 @@ class MacroFunction(Macro):
                     placemarker = len(last) == 0 and len(nexttok) == 0
                     last_cat = True
                 elif tok.token == "#":
+                    prev_white = tok.prev_white
                     idx += 1
                     if idx == len(self.replacement):
                         raise ParseError(
@@ -1615,7 +1616,7 @@ class MacroFunction(Macro):
                             "# was not followed by a macro argument.",
                         )
                     tok = Lexer.stringify(tok)
-                    tok.prev_white = tok.prev_white
+                    tok.prev_white = prev_white
                     last_cat = True
                     res_tokens.append(tok)
                 else:
